@@ -671,6 +671,30 @@ func (e *Exec) builtin(b *ssa.Builtin, args []Value) Value {
 		panic(goPanic{msg: "panic: " + e.describe(args[0]), val: args[0]})
 	case "print", "println":
 		return nil
+	case "min", "max":
+		signed := true
+		if sig, ok := b.Type().(*types.Signature); ok && sig.Params().Len() > 0 {
+			signed = isSigned(sig.Params().At(0).Type())
+		}
+		r := args[0].(*Term)
+		for _, x := range args[1:] {
+			y := x.(*Term)
+			if r.F {
+				e.cut("unsupported-builtin:min/max on floats")
+			}
+			var lt *Term
+			if signed {
+				lt = Bin(OSlt, r, y)
+			} else {
+				lt = Bin(OUlt, r, y)
+			}
+			if b.Name() == "min" {
+				r = Ite(lt, r, y)
+			} else {
+				r = Ite(lt, y, r)
+			}
+		}
+		return r
 	case "recover":
 		return Iface{}
 	case "ssa:wrapnilchk":
